@@ -26,7 +26,7 @@
       glue_rfa_exp_fixed      (C05)   uses 1 <= n only *)
 From Coq Require Import Lia Bool.
 From TW Require Import Model.GlueLeaves Gen.RfaGlue.
-From TW Require Import Proofs.ListLemmas Proofs.ListLemmas7 Proofs.GlueProcessProofs.
+From TW Require Import Proofs.ListLemmas Proofs.ListLemmas7 Proofs.GlueFunLemmas.
 Open Scope Qc_scope.
 Open Scope string_scope.
 
